@@ -2,6 +2,7 @@ import OnetVerif.Model.C20
 import OnetVerif.Proofs.C20Spec
 import OnetVerif.Proofs.C20Lemmas
 import OnetVerif.Proofs.C20IPv4
+import OnetVerif.Shapes
 /-! Property C20 — address parsing is total and self-consistent.
 
 The property theorems, the negation witness for the code before the repair and non-vacuity
@@ -394,5 +395,78 @@ example : parseIP [48, 49, 48, 46, 48, 46, 48, 46, 49] = false ∧ parseIP [50, 
 /-- `tcp://a:b:1` and `udp://1.2.3.4:80` are invalid -/
 example : valid [116, 99, 112, 58, 47, 47, 97, 58, 98, 58, 49] = false := by decide
 example : valid [117, 100, 112, 58, 47, 47, 49, 46, 50, 46, 51, 46, 52, 58, 56, 48] = false := by decide
+
+
+/-! ### the code regions the model stands for
+Regenerated from /repo's source on every run (`harness/cmd/astfacts` → `OnetVerif/Shapes.lean`): the
+calls that matter for synchronisation and data flow, the lock regions and (for decision logic) the
+conditions, in source order.  A re-ordering, a dropped call or a changed condition breaks these
+obligations even when no sampled input or schedule shows a difference; the check then searches for
+a failing input. -/
+theorem c20_shape_address_Address_Valid :
+    Shapes.network_address_Address_Valid =
+   ["if:(len(vals)!=2)", "return:false", "if:(connType(vals[])==InvalidConnType)",
+     "return:false", "net.SplitHostPort", "if:(e!=nil)", "return:false", "strconv.Atoi",
+     "if:(((err!=nil)||(p<0))||(p>65535))", "return:false", "if:(len(ip)==0)", "return:true",
+     "if:(net.ParseIP(ip)==nil)", "return:validHostname(ip)", "return:true"] := rfl
+
+theorem c20_shape_address_validHostname :
+    Shapes.network_address_validHostname =
+   ["if:(len(s)==0)", "return:false", "if:(s[]=='.')", "if:(len(s)>maxLength)", "return:false",
+     "if:((len(element)<1)||(len(element)>63))", "return:false", "regexp.MatchString",
+     "if:!valid", "if:(strings.Count(s,\"\")==0)", "return:true", "return:valid"] := rfl
+
+theorem c20_shape_address_Address_ConnType :
+    Shapes.network_address_Address_ConnType =
+   ["if:!a.Valid()", "return:InvalidConnType", "return:connType(vals[])"] := rfl
+
+theorem c20_shape_address_Address_NetworkAddress :
+    Shapes.network_address_Address_NetworkAddress =
+   ["if:!a.Valid()", "return:\"\"", "return:vals[]"] := rfl
+
+theorem c20_shape_address_Address_Host :
+    Shapes.network_address_Address_Host =
+   ["a.NetworkAddress", "if:(na==\"\")", "return:\"\"", "a.NetworkAddress", "net.SplitHostPort",
+     "if:(e!=nil)", "return:\"\"", "return:h"] := rfl
+
+theorem c20_shape_address_Address_Port :
+    Shapes.network_address_Address_Port =
+   ["a.NetworkAddress", "if:(na==\"\")", "return:\"\"", "net.SplitHostPort", "if:(e!=nil)",
+     "return:\"\"", "return:p"] := rfl
+
+theorem c20_shape_address_Address_IsHostname :
+    Shapes.network_address_Address_IsHostname =
+   ["a.Host", "return:(validHostname(host)&&(net.ParseIP(host)==nil))"] := rfl
+
+theorem c20_shape_address_NewAddress :
+    Shapes.network_address_NewAddress =
+   ["Address"] := rfl
+
+theorem c20_shape_struct_GlobalBind :
+    Shapes.network_struct_GlobalBind =
+   ["net.SplitHostPort", "if:(err!=nil)", "return:\"\",xerrors.Errorf(\"\",err)",
+     "return:(\"\"+port),nil"] := rfl
+
+theorem c20_shape_tcp_getListenAddress :
+    Shapes.network_tcp_getListenAddress =
+   ["if:(listenAddr==\"\")", "return:GlobalBind(addr.NetworkAddress())", "addr.NetworkAddress",
+     "net.SplitHostPort", "if:(err!=nil)", "return:\"\",xerrors.Errorf(\"\",err)",
+     "if:((len(splitted)==1)&&(port!=\"\"))", "net.SplitHostPort", "if:(err!=nil)",
+     "return:\"\",xerrors.Errorf(\"\",err)", "return:combined,nil", "net.SplitHostPort",
+     "if:(err!=nil)", "return:\"\",xerrors.Errorf(\"\",err)",
+     "if:((hostListen!=\"\")&&(portListen!=\"\"))", "return:listenAddr,nil",
+     "return:\"\",xerrors.Errorf(\"\",addr.NetworkAddress(),listenAddr)"] := rfl
+
+theorem c20_shape_client_getWSHostPort :
+    Shapes.websocket_client_getWSHostPort =
+   ["if:(si.URL!=\"\")", "url.Parse", "if:(err!=nil)", "return:\"\",fmt.Errorf(\"\",err)",
+     "if:!url.IsAbs()", "return:\"\",errors.New(\"\")", "schemeToPort", "if:(err!=nil)",
+     "return:\"\",fmt.Errorf(\"\",err)", "url.Port", "if:(portStr==\"\")", "else",
+     "strconv.ParseUint", "if:(err!=nil)", "return:\"\",fmt.Errorf(\"\",err)", "uint16",
+     "url.Hostname", "else", "Address.Port", "strconv.ParseUint", "if:(err!=nil)",
+     "return:\"\",fmt.Errorf(\"\",err)", "if:((portRaw+1)>=(1<<portBitSize))",
+     "return:\"\",fmt.Errorf(\"\",portRaw)", "uint16", "Address.Host", "if:global",
+     "strconv.FormatUint", "return:net.JoinHostPort(hostname,portFormatted),nil"] := rfl
+
 
 end C20
